@@ -14,6 +14,12 @@ class Resolver:
         self._locals_cache = {}
         for m in repo.modules.values():
             self._collect_imports(m)
+        # second pass: `from pkg import name` where pkg/__init__ itself imports `name` (re-export shadowing a submodule of the same
+        # name) could not be decided before pkg's own imports were collected
+        for m in repo.modules.values():
+            m.imports.clear()
+            m.star_imports[:] = []
+            self._collect_imports(m)
         for c in repo.classes.values():
             self._resolve_bases(c)
         for c in repo.classes.values():
